@@ -290,6 +290,12 @@ func c14Run(sc lcScenario, run *explore.Run, rounds int) (*lcObserver, []string,
 			}
 			menu = append(menu, evt{"node-deleted-by-user", func() { w.EnvDelete(node) }})
 		}
+		if cur.Status.ProviderID == "" && !containsStr(cur.Finalizers, v1.TerminationFinalizer) {
+			// a NodeClaim that does not carry the finalizer yet can be deleted by anyone at any time; the controller's cache
+			// may still hold it: the next reconcile is handed a version of an object that no longer exists. (Once the
+			// finalizer is on, only a force-removal could make it vanish — outside the statement.)
+			menu = append(menu, evt{"nodeclaim-removed-from-the-api", func() { w.EnvDelete(cur) }})
+		}
 		menu = append(menu, evt{"clock+5m", func() { w.Clock.Step(5 * time.Minute) }}, evt{"clock+15m", func() { w.Clock.Step(15 * time.Minute) }},
 			evt{"controller-restart", func() {
 				ctrl = lifecycle.NewController(w.Clock, w.Client, w.CP, w.Rec, nodepoolhealth.NewState(), nil)
@@ -315,6 +321,9 @@ func c14Run(sc lcScenario, run *explore.Run, rounds int) (*lcObserver, []string,
 		// ---- stale-read choice: any version not older than the last one this controller was given
 		latest := w.GetNodeClaim(name)
 		if latest == nil {
+			// gone from the API: one last reconcile with the cached copy, then the history ends
+			history = append(history, "reconcile(object gone, cached copy)")
+			_, _ = ctrl.Reconcile(w.Ctx, versions[len(versions)-1].DeepCopy())
 			break
 		}
 		if latest.ResourceVersion != versions[len(versions)-1].ResourceVersion {
@@ -364,12 +373,12 @@ var _ = client.ObjectKey{}
 
 func init() {
 	register("C14", "fault_enumeration", func(r *ev.Rec) {
-		bound, rounds := 1, 6
+		bound, rounds := 2, 7
 		if r.Tier == "thorough" {
-			bound, rounds = 2, 7
+			bound, rounds = 3, 7
 		}
 		r.Rule = fmt.Sprintf("NodeClaims created by the real provisioner in %d scenarios (plain, startup taint, requested extended resource, template taint) are driven through the real lifecycle controller for %d rounds; "+
-			"each round = one environment event (node appears with/without the unregistered taint, Ready, startup taints removed, extended resource reported, node deleted, clock +5m/+15m, controller restart, none) then one Reconcile handed any NodeClaim version not older than the last one given (stale read); "+
+			"each round = one environment event (node appears with/without the unregistered taint, Ready, startup taints removed, extended resource reported, node deleted, the NodeClaim object removed from the API while the controller still holds a cached copy, clock +5m/+15m, controller restart, none) then one Reconcile handed any NodeClaim version not older than the last one given (stale read); "+
 			"every API WRITE and provider call (reads never fail, as the property quantifies) may fail (500 / 409 on optimistic lock / provider error / InsufficientCapacity / NodeClassNotReady). All histories with <=%d deviations from the happy path (non-default event, stale version, fault) are explored. "+
 			"Oracle at the instant of each provider Create and each NodeClaim write. non-trivial = distinct (scenario, history)", len(lcScenarios), rounds, bound)
 		r.Assumptions = []string{"at-most-once Create is only required while the controller keeps running (runs with a restart skip that clause)", "the launch cache's one-hour real-time TTL is never reached"}
